@@ -26,7 +26,10 @@ extern ssize_t mpt_queue_peek(MPT_STRUCT(decode_queue) *qu, size_t max, void *ds
 	if (!(len = qu->data.len)) {
 		return MPT_ERROR(MissingData);
 	}
-	off = qu->data.off;
+	/* data may start at wrap position */
+	if ((off = qu->data.off) == qu->data.max) {
+		off = 0;
+	}
 	msg.base = ((uint8_t *) qu->data.base) + off;
 	
 	/* message setup */
